@@ -228,7 +228,7 @@ PATTERNS = {"nu": r"line_\d+\.csv", "ldr": r"\w*_ldr_\d+\.csv", "tofwerk": r"\w+
 class C04(Prop):
     id = "C04"
     anchored = ["src/pewlib/io/csv.py"]
-    cases = {"quick": 1500, "thorough": 40000}
+    cases = {"quick": 1300, "thorough": 36000}
     rule = ("synthetic directories in the Nu / iCap LDR / TOFWERK / generic layouts (1..8 line files, numbers 9/10/11/100, "
             "plain / zero-padded / per-file (mixed) padding of the index, LDR sample names with digits and the lines of two "
             "samples in one directory, unequal lengths, 1..4 elements, distractor / hidden / directory entries, shuffled "
@@ -344,7 +344,9 @@ class C04(Prop):
                 ("ldr", ["b_LDR_2.csv", "B_ldr_10.CSV", "a_ldr_11.csv", "b_ldr_009.csv"], ["two-samples", "sample-case-mix", "mixed-padding"]),
                 ("ldr", ["a_ldr_1_ldr_10.csv", "a_ldr_1_ldr_9.csv", "a_ldr_2.csv"], ["two-samples", "prefix-digits"]),
                 ("nu", ["line_10.csv", "line_007.csv", "LINE_9.CSV", "line_0100.csv"], ["mixed-padding"]),
-                ("nu", ["line_010.csv", "line_9.csv"], ["mixed-padding"])):
+                ("nu", ["line_010.csv", "line_9.csv"], ["mixed-padding"]),
+                ("nu", ["line_9007199254740993.csv", "line_9007199254740992.csv", "line_18446744073709551616.csv", "line_99999.csv"],
+                 ["index>=5digits"])):
             for rev in (False, True):
                 yield self.fixed_dir(vendor, list(reversed(names)) if rev else names, f"C04-targeted-pad-{names}", feats=feats + ["lex!=num"])
         # a stamp time.strptime rejects: the import raises (compared with the model); one-digit month and day
